@@ -3,7 +3,7 @@ import vlib
 
 ID = "C10"
 PROP_FILE = "Properties/C10.v"
-CHECK_MODULE = "Check.C10Check"
+CHECK_MODULE = "Model.JsonValue Check.C10Check"
 CASE_TYPE = "tcase"
 DRIVER_PKG = "cmd/verif_c10"
 SHARD = 400
@@ -22,6 +22,9 @@ TRUSTED = [
     "with NewEntity) are KIdentity in the model; 'equivalent to a plain copy' is judged by the driver comparing the sink with the sink "
     "of a job without transform over the same source (canonical JSON), 'running it again produces no new changes' by the sink's "
     "change-log length after a run from scratch and after a full sync; goja's value conversion itself is not modelled",
+    "value normalisation: entity.go toJsonValue is called directly on Go values of every integer / float kind, strings, bools, nil, "
+    "nested slices, []string and maps, in pairs (value, what goja may hand back for it); the model is Model/JsonValue.v (floats as "
+    "thousandths); struct values (nested *Entity through toMap) are not modelled",
     "goroutine scheduling of the chunk workers: results are collected by worker index, so the model is sequential",
 ]
 ASSUMPTIONS = [
@@ -43,8 +46,97 @@ def mkcopy(n, batch, par, kind):
     return {"n": n, "batch": batch, "par": par, "kind": kind, "full": False, "wrap": False, "copy": True}
 
 
+IKINDS = ["int", "int8", "int16", "int32", "int64", "uint", "uint8", "uint16", "uint32", "uint64"]
+IKIND_COQ = {"int": "KInt", "int8": "KInt8", "int16": "KInt16", "int32": "KInt32", "int64": "KInt64", "uint": "KUint",
+             "uint8": "KUint8", "uint16": "KUint16", "uint32": "KUint32", "uint64": "KUint64"}
+
+
+def gen_gval(rng, depth=0):
+    r = rng.below(12 if depth < 3 else 8)
+    if r < 2:
+        k = rng.choice(IKINDS)
+        n = rng.range(0, 100) if k.startswith("u") or k == "int8" else rng.range(-100, 100)
+        return {"k": k, "v": n}
+    if r < 4:
+        return {"k": "f64", "v": rng.choice([0, 1000, 2000, -3000, 1500, 250, -500, 7000, 100000])}
+    if r == 4:
+        return {"k": "f32", "v": rng.choice([0, 500, 1500, -2500, 1000, 3000])}
+    if r == 5:
+        return {"k": "str", "v": rng.range(1, 5)}
+    if r == 6:
+        return {"k": "bool", "v": rng.chance(1, 2)}
+    if r == 7:
+        return {"k": "nil"}
+    if r < 10:
+        return {"k": "slice", "v": [gen_gval(rng, depth + 1) for _ in range(rng.range(0, 3))]}
+    if r == 10:
+        return {"k": "strslice", "v": [rng.range(1, 5) for _ in range(rng.range(0, 3))]}
+    return {"k": "map", "v": [[i + 1, gen_gval(rng, depth + 1)] for i in range(rng.range(0, 2))]}
+
+
+def js_image(rng, g):
+    """what a pass through a JavaScript transform may turn the value into: integer-valued float64 -> int64, inside slices too"""
+    if g["k"] == "f64" and g["v"] % 1000 == 0 and rng.chance(3, 4):
+        return {"k": "int64", "v": g["v"] // 1000}
+    if g["k"] == "slice":
+        return {"k": "slice", "v": [js_image(rng, x) for x in g["v"]]}
+    return g
+
+
+def mkjson(rng):
+    g = gen_gval(rng)
+    return {"n": 0, "batch": 1, "par": 1, "kind": "identity", "full": False, "wrap": False, "json": [g, js_image(rng, g)]}
+
+
+def gval_term(g):
+    k = g["k"]
+    if k in IKIND_COQ:
+        return "(GInt %s %s)" % (IKIND_COQ[k], vlib.zlit(int(g["v"])))
+    if k == "f64":
+        return "(GF64 %s)" % vlib.zlit(int(g["v"]))
+    if k == "f32":
+        return "(GF32 %s)" % vlib.zlit(int(g["v"]))
+    if k == "str":
+        return "(GStr %d)" % int(g["v"])
+    if k == "bool":
+        return "(GBool %s)" % vlib.coq_bool(bool(g["v"]))
+    if k == "nil":
+        return "GNil"
+    if k == "slice":
+        return "(GSlice %s)" % vlib.coq_list([gval_term(x) for x in g["v"]])
+    if k == "strslice":
+        return "(GSlice %s)" % vlib.coq_list(["(GStr %d)" % int(x) for x in g["v"]])
+    if k == "map":
+        return "(GMap %s)" % vlib.coq_list(["(%d, %s)" % (int(kv[0]), gval_term(kv[1])) for kv in g["v"]])
+    return "(GStr (-1))"       # a dynamic type the model does not know: predicted by nothing
+
+
+def jval_term(j):
+    t = j.get("t")
+    if t == "num":
+        return "(JNum %s)" % vlib.zlit(int(j["v"]))
+    if t == "str":
+        return "(JStr %d)" % int(j["v"])
+    if t == "bool":
+        return "(JBool %s)" % vlib.coq_bool(bool(j["v"]))
+    if t == "nil":
+        return "JNil"
+    if t == "slice":
+        return "(JSlice %s)" % vlib.coq_list([jval_term(x) for x in j["v"]])
+    if t == "map":
+        return "(JMap %s)" % vlib.coq_list(["(%d, %s)" % (int(kv[0]), gval_term(kv[1])) for kv in j["v"]])
+    return "(JStr (-1))"
+
+
 def witness_cases():
-    return [mkcopy(13, 5, 2, "touch"), mkcopy(13, 100, 3, "rebuild"), mkcopy(9, 4, 1, "identity"), mkcopy(0, 4, 3, "touch"),
+    f = lambda v: {"k": "f64", "v": v}
+    i = lambda v: {"k": "int64", "v": v}
+    js = lambda a, b: {"n": 0, "batch": 1, "par": 1, "kind": "identity", "full": False, "wrap": False, "json": [a, b]}
+    return [js(f(22000), i(22)), js({"k": "slice", "v": [f(1000), {"k": "slice", "v": [f(2000), f(2500)]}]},
+                                    {"k": "slice", "v": [i(1), {"k": "slice", "v": [i(2), f(2500)]}]}),
+            js({"k": "uint16", "v": 7}, {"k": "uint16", "v": 7}), js({"k": "strslice", "v": [1, 2]}, {"k": "strslice", "v": [1, 2]}),
+            js({"k": "map", "v": [[1, i(1)], [2, f(1500)]]}, {"k": "map", "v": [[1, i(1)], [2, f(1500)]]}),
+            mkcopy(13, 5, 2, "touch"), mkcopy(13, 100, 3, "rebuild"), mkcopy(9, 4, 1, "identity"), mkcopy(0, 4, 3, "touch"),
             mk(11, 100, 10), mk(15, 100, 10), mk(19, 100, 10), mk(4, 100, 3), mk(14, 5, 4, "create"),
             mk(11, 100, 10, "identity", False, False), mk(11, 100, 10, "dup", True, True),
             # a filtering transform that empties a whole NON-final page must not end the run (fullsync and incremental)
@@ -75,10 +167,14 @@ def gen(rng, tier):
             n = rng.range(0, 40)
             out.append(mk(n, rng.choice([1, 2, 3, 5, 7, 10, 1000]), rng.range(1, 12), rng.choice(KINDS),
                           rng.chance(1, 5), rng.chance(3, 4)))
+        for _ in range(60):
+            out.append(mkjson(rng))
         for _ in range(12):
             out.append(mkcopy(rng.range(1, 30), rng.choice([1, 2, 3, 5, 7, 1000]), rng.range(1, 6), rng.choice(COPY_KINDS)))
         return out
     if tier == "search":
+        for _ in range(200):
+            out.append(mkjson(rng))
         for _ in range(40):
             out.append(mkcopy(rng.range(0, 40), rng.choice([1, 2, 3, 5, 7, 1000]), rng.range(1, 8), rng.choice(COPY_KINDS)))
         for _ in range(300):
@@ -94,6 +190,8 @@ def gen(rng, tier):
         for p in (2, 3, 5, 10):
             for b in range(1, 7):
                 out.append(mk(n, b, p, KINDS[(n + p + b) % 6], (n + b) % 3 == 0, (n + p) % 3 != 0))
+    for _ in range(1500):
+        out.append(mkjson(rng))
     for _ in range(150):
         out.append(mkcopy(rng.range(0, 60), rng.choice([1, 2, 3, 5, 7, 16, 1000]), rng.range(1, 12), rng.choice(COPY_KINDS)))
     for _ in range(600):
@@ -129,12 +227,16 @@ def term(c, o):
                 OUTCOME.get(o["outcome"], 9), zll(seen), zll(o.get("sink") or []), tok, vlib.zlit(o.get("rerun", -1)),
                 ("Some (%s, %s, %s, %s, %s)" % (vlib.coq_bool(bool(o.get("dst_eq"))), vlib.zlit(o.get("dst_changes", -1)),
                                                 vlib.zlit(o.get("ref_changes", -1)), vlib.zlit(o.get("re_changes", -1)),
-                                                vlib.zlit(o.get("full_changes", -1)))) if c.get("copy") else "None"))
+                                                vlib.zlit(o.get("full_changes", -1)))) if c.get("copy") else "None")
+            ).replace(" |}", "; o_json := %s |}" % (
+                ("Some (%s, %s, %s, %s)" % (gval_term(c["json"][0]), gval_term(c["json"][1]),
+                                            jval_term((o.get("json_out") or [{}, {}])[0]), jval_term((o.get("json_out") or [{}, {}])[1])))
+                if c.get("json") else "None"))
 
 
 def predict_text(c, o):
     t = term(c, o)
-    ok, out, _ = vlib.coq_eval("C10p", [CHECK_MODULE],
+    ok, out, _ = vlib.coq_eval("C10p", CHECK_MODULE.split(),
                                "Definition c : tcase := %s.\nEval vm_compute in (predict PRound c, predict PCeilClip c).\n" % t)
     return out.strip()
 
@@ -145,7 +247,7 @@ def eff_par(n, p):
 
 def attribute(c, o):
     """signature of the recorded findings on the pinned arithmetic"""
-    if c["full"] or c.get("copy"):
+    if c["full"] or c.get("copy") or c.get("json"):
         return None
     # a page of length L is bad for math.Round arithmetic iff ...
     def page_bad(L):
@@ -178,6 +280,8 @@ def classify(c, o):
 
 
 def tags(c, o):
+    if c.get("json"):
+        return ["mode=value-normalisation", "value=" + c["json"][0]["k"], "js-image-differs=%s" % (c["json"][0] != c["json"][1])]
     return ["kind=" + c["kind"], "mode=" + ("copy" if c.get("copy") else "ids"), "pipeline=" + ("fullsync" if c["full"] else "incremental"),
             "wrap=%s" % c["wrap"], "outcome=" + o["outcome"],
             "n<p" if c["n"] < c["par"] else "n>=p", "pages=%s" % ("1" if c["batch"] >= c["n"] else ">1")]
